@@ -29,7 +29,12 @@ func init() {
 			case "init":
 				bs = st.Int("bs")
 				d := st.Hex("data")
-				cur = make([]byte, len(d), len(d)+st.Int("spare"))
+				// spare capacity is caller-owned memory with arbitrary (non-zero) contents
+				full := make([]byte, len(d)+st.Int("spare"))
+				for j := range full {
+					full[j] = 0xEE
+				}
+				cur = full[:len(d)]
 				copy(cur, d)
 			case "pad":
 				out := newPadding(st.Str("s"), bs).Pad(cur)
